@@ -236,20 +236,20 @@ def _norm(x):
     return x
 
 
-def _erase_indices(x):
-    """Copy of a canon tree without index numbers (canon numbers indices by first occurrence, so one
-    swapped operand pair renumbers everything after it)."""
+def _erase_indices(x, erase=True):
+    """Copy of a canon tree with inner(a, b) in one spelling and (erase=True) without index numbers
+    (canon numbers indices by first occurrence, so one swapped operand pair renumbers everything after it)."""
     if isinstance(x, list):
         t = _tag(x)
-        if t == "i":
+        if erase and t == "i":
             return ["i"]
-        if t == "Zero" and len(x) == 4:
+        if erase and t == "Zero" and len(x) == 4:
             return ["Zero", x[1], len(x[2]), x[3]]
         if t == "Conj" and _is_operator(x) and len(x[1]) == 1 and _tag(x[1][0]) == "Inner" and len(x[1][0][1]) == 2:
             # inner(a, b) is stored as Conj(Inner(b, a)) when its operands sort the other way round
             inner = x[1][0]
-            return ["Inner", [_erase_indices(inner[1][1]), _erase_indices(inner[1][0])], inner[2]]
-        return [_erase_indices(c) for c in x]
+            return ["Inner", [_erase_indices(inner[1][1], erase), _erase_indices(inner[1][0], erase)], inner[2]]
+        return [_erase_indices(c, erase) for c in x]
     return x
 
 
@@ -326,6 +326,8 @@ def mechanism(ref, obs):
     ca, cb = ref.get("canon"), obs.get("canon")
     if isinstance(ca, list) and isinstance(cb, list):
         if ca != cb:
+            if _erase_indices(ca, False) == _erase_indices(cb, False):
+                return "operand-order/Inner"
             ea, eb = _erase_indices(ca), _erase_indices(cb)
             if ea == eb:
                 return "structure/index-pattern"
@@ -559,6 +561,8 @@ def what_differs(x, y, name):
                 return "hashdata-of-" + _hashdata_classes(ta, tb)
             return "hashdata"
         return "arises-in-preprocessing" if name.startswith("sig_fd") else "same-tree-same-terminal-data"
+    if _erase_indices(ca, False) == _erase_indices(cb, False):
+        return "operand-order"  # only the spelling of inner(a, b) differs: Inner(a, b) / Conj(Inner(b, a))
     ea, eb = _erase_indices(ca), _erase_indices(cb)
     if ea == eb:
         return "index-pattern"
